@@ -11,81 +11,83 @@ open StunVerif
 /-- the cause the parser names is one of the true causes -/
 theorem cause_admissible (b : Bytes) (e : PErr) (h : msgFromBytes b = .error e) : e ∈ Spec.causes b := by
   by_cases h20 : 20 ≤ b.length
-  · have hwc := walk_causes b.length b (b.drop 20) 20 [] (by rw [List.length_drop]; omega)
-    rw [msgFromBytes_unfold b h20] at h
+  · rw [msgFromBytes_unfold b h20] at h
     rw [causes_unfold b h20]
-    unfold lenCauses
-    split at h
-    · injection h with h; subst h
-      rename_i h1
+    by_cases h1 : 0x4000 ≤ beNat (b.take 2)
+    · rw [if_pos h1] at h
+      injection h with h; subst h
       rw [if_pos (Or.inl h1)]; simp
-    · split at h
-      · injection h with h; subst h
-        rename_i h1 h2
+    · rw [if_neg h1] at h
+      by_cases h2 : (b.drop 4).take 4 ≠ [0x21, 0x12, 0xA4, 0x42]
+      · rw [if_pos h2] at h
+        injection h with h; subst h
         rw [if_pos (Or.inr h2)]; simp
-      · rename_i h1 h2
-        rw [if_neg (fun h => h.elim h1 h2)]
-        split at h
-        · injection h with h; subst h
-          rename_i h3
+      · rw [if_neg h2] at h
+        rw [if_neg (by intro hh; rcases hh with hh | hh; exact h1 hh; exact h2 hh)]
+        unfold lenCauses
+        by_cases h3 : beNat ((b.drop 2).take 2) + 20 > b.length
+        · rw [if_pos h3] at h
+          injection h with h; subst h
           simp [h3]
-        · split at h
-          · injection h with h; subst h
-            rename_i h3 h4
+        · rw [if_neg h3] at h
+          by_cases h4 : beNat ((b.drop 2).take 2) + 20 < b.length
+          · rw [if_pos h4] at h
+            injection h with h; subst h
             simp [h3, h4]
-          · rename_i h3 h4
+          · rw [if_neg h4] at h
             simp only [h3, h4, if_false, if_true]
             cases hw : walk b.length b (b.drop 20) 20 [] with
             | error e' =>
               rw [hw] at h
               simp only [Except.map] at h
               injection h with h; subst h
-              exact hwc.1 _ hw
+              exact (walk_causes b.length b (b.drop 20) 20 []
+                (by rw [List.length_drop]; omega)).1 _ hw
             | ok u => rw [hw] at h; cases h
-  · have hs : b.length < 20 := by omega
-    unfold msgFromBytes at h
-    rw [header_short b hs] at h
-    simp only [bind, Except.bind] at h
+  · have hlt : b.length < 20 := by omega
+    rw [cause_short b hlt] at h
     injection h with h; subst h
-    obtain ⟨cs, hc⟩ := causes_short b hs
+    obtain ⟨cs, hc⟩ := causes_short b hlt
     rw [hc]; simp
 
 /-- no cause can be named for an accepted buffer, and some cause is true of every refused one -/
 theorem causes_nil_iff (b : Bytes) : Spec.causes b = [] ↔ ∃ m, msgFromBytes b = .ok m := by
   by_cases h20 : 20 ≤ b.length
-  · have hwc := walk_causes b.length b (b.drop 20) 20 [] (by rw [List.length_drop]; omega)
-    rw [causes_unfold b h20]
-    unfold lenCauses
+  · rw [causes_unfold b h20]
+    have hwc := (walk_causes b.length b (b.drop 20) 20 []
+      (by rw [List.length_drop]; omega)).2
     constructor
     · intro h
-      split at h
-      · cases h
-      · rename_i h1
-        have h1a : beNat (b.take 2) < 0x4000 := by
-          have := fun x => h1 (Or.inl x); omega
-        have h1b : (b.drop 4).take 4 = [0x21, 0x12, 0xA4, 0x42] := by
-          have := fun x => h1 (Or.inr x); simpa using this
-        by_cases h3 : beNat ((b.drop 2).take 2) + 20 > b.length
-        · simp [h3] at h
-        · by_cases h4 : beNat ((b.drop 2).take 2) + 20 < b.length
-          · simp [h3, h4] at h
-          · simp only [h3, h4, if_false, if_true] at h
-            exact ⟨⟨b⟩, (msgFromBytes_ok_iff b ⟨b⟩).mpr
-              ⟨rfl, h20, h1a, h1b, by omega, hwc.2.mpr h⟩⟩
+      by_cases h12 : 0x4000 ≤ beNat (b.take 2) ∨ (b.drop 4).take 4 ≠ [0x21, 0x12, 0xA4, 0x42]
+      · rw [if_pos h12] at h; cases h
+      · rw [if_neg h12] at h
+        by_cases hl : lenCauses b = []
+        · rw [if_pos hl] at h
+          refine ⟨⟨b⟩, (msgFromBytes_ok_iff b ⟨b⟩).2 ⟨rfl, h20, by omega, ?_, ?_, hwc.2 h⟩⟩
+          · by_cases hc : (b.drop 4).take 4 = [0x21, 0x12, 0xA4, 0x42]
+            · exact hc
+            · exact absurd (Or.inr hc) h12
+          · unfold lenCauses at hl
+            by_cases h3 : beNat ((b.drop 2).take 2) + 20 > b.length
+            · simp [h3] at hl
+            · by_cases h4 : beNat ((b.drop 2).take 2) + 20 < b.length
+              · simp [h3, h4] at hl
+              · omega
+        · rw [if_neg hl] at h; exact absurd h hl
     · rintro ⟨m, hm⟩
-      obtain ⟨_, _, h1, h2, h3, h4⟩ := (msgFromBytes_ok_iff b m).mp hm
-      rw [if_neg (fun h => h.elim (by omega) (fun h => h h2))]
-      simp only [show ¬ beNat ((b.drop 2).take 2) + 20 > b.length by omega,
-        show ¬ beNat ((b.drop 2).take 2) + 20 < b.length by omega, if_false, if_true]
-      exact hwc.2.mp h4
-  · have hs : b.length < 20 := by omega
-    obtain ⟨cs, hc⟩ := causes_short b hs
-    rw [hc]
+      obtain ⟨_, _, h1, h2, h3, h4⟩ := (msgFromBytes_ok_iff b m).1 hm
+      rw [if_neg (by intro hh; rcases hh with hh | hh; omega; exact hh h2)]
+      have hl : lenCauses b = [] := by
+        unfold lenCauses
+        rw [if_neg (by omega), if_neg (by omega)]
+      rw [if_pos hl]
+      exact hwc.1 h4
+  · have hlt : b.length < 20 := by omega
+    obtain ⟨cs, hc⟩ := causes_short b hlt
+    rw [hc, cause_short b hlt]
     constructor
     · intro h; cases h
-    · rintro ⟨m, hm⟩
-      obtain ⟨_, h, _⟩ := (msgFromBytes_ok_iff b m).mp hm
-      omega
+    · rintro ⟨m, hm⟩; cases hm
 
 /-- two true causes at once: a 19-byte buffer with a type field that is not STUN either -/
 example : Spec.causes (0xC0 :: List.replicate 18 0) = [.truncated 20 19, .notStun] := by decide
